@@ -328,6 +328,14 @@ def main(run):
     run.notes["stages"] = stages
     run.notes["in_exact_domain"] = n_dom
     run.notes["features"] = feat
+    # extra stage (extension T01, DESIGN section 12): the rendered register text against ReportText.v
+    import t01_text
+    ok_t, log_t = coq_make(["props/T01.vo"])
+    if not ok_t:
+        run.violation("proof obligation does not check: props/T01.v (report text model) failed to build",
+                      {"theorem_file": "coq/props/T01.v", "log": log_t[-2000:]}, found_input=False)
+    else:
+        t01_text.run_text_stage(run, "register", n=(25 if run.tier == "quick" else 300))
     return run.finish(info)
 
 
